@@ -603,6 +603,15 @@ func extraC12(col *Collector, r *RNG, tier string) {
 			cs = append(cs, cellCase(cellSpec{t: 17, md: fsp, v: fmt.Sprintf("ts2:%d:%d", s, fr), ext: tzext(s), rest: r.Bytes(r.Intn(2))},
 				fmt.Sprintf("timestamp2-%s-fsp%d", z, fsp), s != 0))
 		}
+		// the zero instant (and its neighbour) under every fractional precision
+		for fsp := 0; fsp <= 6; fsp++ {
+			for _, s := range []uint32{0, 1} {
+				for _, fr := range []int{0, pow10[fsp] - 1, r.Intn(pow10[fsp])} {
+					cs = append(cs, cellCase(cellSpec{t: 17, md: fsp, v: fmt.Sprintf("ts2:%d:%d", s, fr), ext: tzext(s), rest: r.Bytes(r.Intn(2))},
+						fmt.Sprintf("timestamp2-%s-fsp%d-zero", z, fsp), fr != 0 || s != 0))
+				}
+			}
+		}
 		runCases(col, theDriver, cs)
 		col.extraCounts["zone-"+z] += len(cs)
 	}
@@ -841,4 +850,19 @@ var extraC13 = histExtra("strings-end-to-end", "strings-end-to-end", 150, 3000, 
 		ts = append(ts, t)
 	}
 	return rowsOnlyHistory(r, cfg, ts, 3)
+})
+
+// extraC16: "once the announced algorithm is applied" — the algorithm is announced per binlog file (every file starts
+// with its own FORMAT_DESCRIPTION event, itself checksummed): multi-file histories with and without CRC32 through the
+// real parseEvents; every event after the second format description must still be stripped and decoded as written.
+var extraC16 = histExtra("checksum-across-files", "checksum-across-files", 80, 1600, func(r *RNG, cfg string) *hist {
+	o := histOpts{maxUnits: 8, maxStmts: 2, maxRows: 2, maxCols: 5, maxTables: 2, files: true, ignorable: true}
+	for {
+		h := genHistory(r, o, cfg)
+		for _, u := range h.units {
+			if u.kind == "rot" || u.kind == "rst" {
+				return h
+			}
+		}
+	}
 })
